@@ -8,11 +8,11 @@ from vlib import core, dom, refsol, rescorr
 
 ID = "C02"
 GEN = ["reservoir"]
-PROPS = ["C02_convergence.v", "C02_consistency.v", "C01_matrix.v", "C04_step_system.v", "C03_flux_branch.v"]
+PROPS = ["C02_convergence.v", "C02_consistency.v", "C01_matrix.v", "C04_step_system.v", "C03_flux_branch.v", "C02_mesh.v"]
 T_END = 0.5
 
 
-def ladder(kind, ratio, nxs, table=None, grid="quadratic", reverse_rows=False, reassign=False):
+def ladder(kind, ratio, nxs, table=None, grid="quadratic", reverse_rows=False, reassign=False, two_phase_sw=None):
     """errors of field (max over nodes, relative to u_i - u_f) and of both recoveries at T_END"""
     out = []
     for nx in nxs:
@@ -25,6 +25,8 @@ def ladder(kind, ratio, nxs, table=None, grid="quadratic", reverse_rows=False, r
             c = dict(kind="single", table=table, pi=pi, pf=max(pi * ratio, float(table["pressure"][1])), nx=nx, times=t)
             if reverse_rows:
                 c["reverse_rows"] = True
+        if two_phase_sw is not None and kind != "ideal":
+            c["two_phase_sw"] = two_phase_sw    # TwoPhaseReservoir(nx, p_frac, p_initial, fluid, Sw_init), positional
         if reassign:
             c["reassign"] = True    # the object was built and run with another node count / pressures; its fields are then re-assigned
         im = rescorr.run_impl(c)
@@ -84,6 +86,16 @@ def run(ctx):
                     derr.append(abs(r["rfd"] / rfex - 1))
             judge(f"{kind} r={ratio}", ferr, inp, 2.5, "pseudopressure field vs Fourier series")
             judge(f"{kind} r={ratio}", rerr, inp, 2.5, "flux recovery vs Fourier series")
+            # the oil-gas class (same time stepping, one more positional argument: the initial water saturation) on the same ladder
+            if ratio == ratios[1] and kind == "single" and tb is liquid:
+                lad3 = ladder(kind, ratio, nxs, tb, two_phase_sw=0.25)
+                ev += len(lad3)
+                inp3 = dict(**inp, object="TwoPhaseReservoir(nx, pressure_fracface, pressure_initial, fluid, 0.25)  (documented positional order, Sw_init = 0.25)")
+                if any("field" not in r for r in lad3):
+                    bad("simulation fails for the oil-gas reservoir class", inp3, [r.get("error") for r in lad3])
+                else:
+                    ferr3 = [np.abs(r["field"] - refsol.fourier_field(np.minimum(r["x"], 2 - r["x"]), T_END, r["ui"], r["uf"])).max() / (r["ui"] - r["uf"]) for r in lad3]
+                    judge(f"two-phase class r={ratio}", ferr3, inp3, 2.5, "pseudopressure field vs Fourier series (oil-gas reservoir class)")
             # the same ladder walked with objects whose node count and pressures were RE-ASSIGNED after an earlier run with other
             # settings (a refinement loop that reuses its reservoir object): same problem, same answers
             if ratio == ratios[1] and tb is not shifted:
